@@ -144,7 +144,16 @@ func genC11(t *rapid.T) (SetCase, map[string]bool) {
 	var nested *S
 	for d := depth; d >= 1; d-- {
 		name := fmt.Sprintf("inc%d", d)
-		set = append(set, &Tmpl{Name: name, Body: g.includedBody(name, nested)})
+		body := g.includedBody(name, nested)
+		if g.pick(4, "extends") == 0 {
+			// the included template uses inheritance: its layout reads the includer's names too
+			g.stats["included-template-extends"] = true
+			lay := "lay" + name
+			set = append(set, &Tmpl{Name: lay, Body: []*S{Text("L["), {K: "block", Name: "cb", Body: []*S{Text("dflt")}}, Print(Var("p")), Text(","), Print(Var("q")), Text(","), Print(Var("w1")), Text("]")}})
+			set = append(set, &Tmpl{Name: name, Extends: Str(lay), Body: []*S{{K: "block", Name: "cb", Body: body}}})
+		} else {
+			set = append(set, &Tmpl{Name: name, Body: body})
+		}
 		nested = g.includeStmt(name, false)
 	}
 	if depth >= 2 {
